@@ -5,19 +5,25 @@ Line-protocol oracle for C19, suite `config-runs` (stateful: the data facts).
 
   code <repair> …                                     -> ok
         which repairs are declared to be in the tree (`-` = none): reportEveryChecked objectiveChecked
-        loopInvariantGuarded concurrencyCapped runNumberBounded outputPathChecked
+        loopInvariantGuarded concurrencyCapped runNumberBounded outputPathChecked cpuProfilePathChecked
   env <dataset> <bind0> <never0> … <bind5> <never5>   -> ok
         limit zones of a data set (thousandths), extracted by the harness from the real catchment model,
         in the order of `limitKeys`
   cfg <entry> …                                       -> load=<ok|err:decode|err:unknown+mandatory(F,..)> interp=<ok|err:model,annealer,scenario|panic|->
         the structured configuration: <entry> = <sec>/<key>=<kind>:<value>
         sec  S SU SR SRL A AP M MP MD Z;  kind  i (integer) f (decimal, thousandths) s (string token) b (0|1) p (path symbol) t (table)
-  pred <entry> …                                      -> accepts=<0|1> safe=<0|1> must=<names|-> may=<names|->
+  pred <entry> …                                      -> accepts=<0|1> safe=<0|1> must=<names|-> may=<names|-> fixed=<names|->
         harness pre-pass: the finding predicates evaluated on the structured form; `must` = findings
-        whose failure site every run reaches, `may` = findings that end a run only sometimes
-  ran <outcome> <candidates|-> <summaries> <entry> …  -> ok | missing-results | unexpected-completion | explained:<finding> | unexplained | …
+        whose failure site every run reaches, `may` = findings that end a run only sometimes, `fixed` =
+        findings that hold syntactically but whose repair is declared (they cannot end a run if the
+        declaration is true)
+  ran <outcome> <candidates|-> <summaries> <entry> …  -> ok | missing-results | unexpected-completion | explained:<finding> | recurred:<finding> | unexplained | …
         the verdict on an observed run: a crash is explained only by a finding that holds of the
-        configuration AND is among the candidates the harness derived from the panic text
+        configuration AND is among the candidates the harness derived from the panic text; `recurred` =
+        such a finding whose repair is declared: the repair is not (or no longer) effective
+  notrun <entry> …                                    -> boundary:too-long-to-run | should-run
+        an accepted configuration the harness did not run: legitimate only for a RunNumber above `runLimit`
+        (e.g. next to the 2^31 - 1 bound: only its accept/reject verdict is compared)
 -/
 namespace Driver.Config
 open Crem.Config
@@ -84,7 +90,8 @@ def parseRepairs (ws : List String) : Repairs :=
     loopInvariantGuarded := ws.contains "loopInvariantGuarded"
     concurrencyCapped := ws.contains "concurrencyCapped"
     runNumberBounded := ws.contains "runNumberBounded"
-    outputPathChecked := ws.contains "outputPathChecked" }
+    outputPathChecked := ws.contains "outputPathChecked"
+    cpuProfilePathChecked := ws.contains "cpuProfilePathChecked" }
 
 def verdictLine (r : Repairs) (c : Cfg) : String :=
   match verdict r c with
@@ -93,17 +100,27 @@ def verdictLine (r : Repairs) (c : Cfg) : String :=
   | .accepted => "load=ok interp=ok"
   | .interpretError es => "load=ok interp=err:" ++ ",".intercalate ((visible es).map secErrStr)
 
+/-- the findings are syntactic predicates: they are evaluated on the decoded form whether or not the model's
+loader accepts.  (For a configuration both sides reject nothing is run and the lists are not used; one that crem
+accepts although the model rejects it is a correspondence mismatch by itself, and a crash of it is still
+attributed to the finding it exhibits.) -/
 def mustMay (r : Repairs) (env : Env) (c : Cfg) : List String × List String :=
-  match load r c with
-  | .error _ => ([], [])
-  | .ok l =>
-    let fs := findingNames r env c
-    (fs.filter (certain env l), fs.filter (fun n => !certain env l n))
+  let l := mkLoaded c
+  let fs := findingNames r env c
+  (fs.filter (certain env l), fs.filter (fun n => !certain env l n))
 
 def predLine (r : Repairs) (env : Env) (c : Cfg) : String :=
   let (must, may) := mustMay r env c
   let safe := match load r c with | .ok l => runSafeB r env l | .error _ => false
-  s!"accepts={boolStr (accepts r c)} safe={boolStr safe} must={commaList must} may={commaList may}"
+  s!"accepts={boolStr (accepts r c)} safe={boolStr safe} must={commaList must} may={commaList may} fixed={commaList (repairedNames r c)}"
+
+/-- the largest number of runs the harness actually executes -/
+def runLimit : Int := 1000
+
+def notRunLine (c : Cfg) : String :=
+  match get c .scenario "RunNumber" with
+  | some (.int i) => if runLimit < i then "boundary:too-long-to-run" else "should-run"
+  | _ => "should-run"
 
 def expectedRuns (c : Cfg) : Nat :=
   match get c .scenario "RunNumber" with
@@ -112,15 +129,18 @@ def expectedRuns (c : Cfg) : Nat :=
 
 def ranLine (r : Repairs) (env : Env) (outcome cands : String) (summaries : Nat) (c : Cfg) : String :=
   let (must, may) := mustMay r env c
-  let explained := (if cands = "-" then [] else cands.splitOn ",").find? (fun n => must.contains n || may.contains n)
+  let candList := if cands = "-" then [] else cands.splitOn ","
+  let explained := match candList.find? (fun n => must.contains n || may.contains n) with
+    | some n => some ("explained:" ++ n)
+    | none => (candList.find? (fun n => (repairedNames r c).contains n)).map ("recurred:" ++ ·)
   match outcome with
   | "completed" =>
     if summaries < expectedRuns c then "missing-results"
     else if !must.isEmpty then "unexpected-completion"
     else "ok"
-  | "panic" => (match explained with | some n => "explained:" ++ n | none => "unexplained")
-  | "run-failed-error" => (match explained with | some n => "explained:" ++ n | none => "unexplained")
-  | "error-value" => (match explained with | some n => "explained:" ++ n | none => "run-error")
+  | "panic" => explained.getD "unexplained"
+  | "run-failed-error" => explained.getD "unexplained"
+  | "error-value" => explained.getD "run-error"
   | "timeout" => "timeout"
   | "rejected" => "child-rejected"
   | _ => "child-failed"
@@ -143,6 +163,10 @@ def step (st : St) (line : String) : St × String :=
   | "pred" :: ws =>
     match parseCfg ws with
     | some c => (st, predLine st.r st.env c)
+    | none => (st, "bad-op")
+  | "notrun" :: ws =>
+    match parseCfg ws with
+    | some c => (st, notRunLine c)
     | none => (st, "bad-op")
   | "ran" :: outcome :: cands :: n :: ws =>
     match parseCfg ws, n.toNat? with
